@@ -24,3 +24,17 @@ Definition same_group (gs : list (list item)) (a b : item) : Prop := exists g, I
 (* b is the feature a with other context options *)
 Definition same_but_context (a b : gfeat) : Prop :=
   g_id a = g_id b /\ g_group a = g_group b /\ g_cfw a = g_cfw b /\ g_ty a = g_ty b.
+
+(* the property text: "computed together exactly when group options, framework and declared type agree
+   (an undeclared type agrees with any)" *)
+Definition agreeb (a b : item) : bool :=
+  Nat.eqb (it_kb a) (it_kb b) &&
+  match it_ty a, it_ty b with Some x, Some y => Nat.eqb x y | _, _ => true end.
+
+(* known-defect domain: some feature without declared type is compatible with two typed features of different types
+   ("agrees with any" is not transitive there, so no partition can satisfy the text) *)
+Definition kf_ambiguous (its : list item) : bool :=
+  existsb (fun u => negb (is_typed u) &&
+    existsb (fun t1 => existsb (fun t2 =>
+      is_typed t1 && is_typed t2 && Nat.eqb (it_kb t1) (it_kb u) && Nat.eqb (it_kb t2) (it_kb u)
+      && negb (oty_eqb (it_ty t1) (it_ty t2))) its) its) its.
